@@ -12,7 +12,8 @@
 (* A link is addressed the way the server can: "of" = a call whose query is       *)
 (* pending on it (0: none), else "k" = the connection number.                     *)
 (* DropWhen restricts SrvDrop: "mid" (a query is pending on the link), "idle"     *)
-(* (none is), "any".  A behaviour is complete when every call has returned and    *)
+(* (none is), "hs" (one close only, further closes hit the handshake of the      *)
+(* reconnect), "any".  A behaviour is complete when every call has returned and    *)
 (* every connection is back on an open socket; the script is emitted there (or    *)
 (* at Depth).  One random class of step per state (a uniform choice would drown   *)
 (* the protocol in timeouts).                                                     *)
@@ -49,6 +50,7 @@ GNoise   == \E k \in Conns : \E g \in Gens(k) :
               \/ SrvOther(k, g, Unknown) /\ Step("other", 0, k, OfLink(k, g))
 DropOK(k, g) == CASE DropWhen = "mid" -> Busy(k, g) # {}
                   [] DropWhen = "idle" -> Busy(k, g) = {}
+                  [] DropWhen = "hs" -> drops = 0             \* one close; the rest of the budget goes to handshakes
                   [] OTHER -> TRUE
 GDrop    == \/ \E k \in Conns : \E g \in Gens(k) : DropOK(k, g) /\ SrvDrop(k, g) /\ Step("drop", 0, k, OfLink(k, g))
             \/ \E k \in Conns : DialFail(k) /\ Step("hsdrop", 0, k, 0)
